@@ -97,5 +97,5 @@ void harness(void)
     __CPROVER_assume(g_agreed_ll[0] <= NENT + 2);   /* other processes need at most two more rounds than the longest possible local replay */
     int r = ncbbio_log_flush_core(&bb);
     CANARY(r == NC_NOERR && g_wait_calls >= 3 && (IN_flag & NC_MODE_INDEP), "one_entry_per_batch"); CANARY(r == NC_NOERR && g_wait_calls == 1 && g_put_calls == NENT, "whole_log_in_one_batch");
-    CANARY(r == NC_NOERR && g_put_calls == NENT - 1 && !IN_valid[1], "cancelled_entry_skipped"); CANARY(r == NC_NOERR && g_reads >= 2 && g_wait_calls == 1, "read_in_two_pieces_around_a_gap");
+    CANARY(r == NC_NOERR && g_put_calls == NENT - 1 && !IN_valid[NENT > 1 ? 1 : 0], "cancelled_entry_skipped"); CANARY(r == NC_NOERR && g_reads >= 2 && g_wait_calls == 1, "read_in_two_pieces_around_a_gap");
 }
